@@ -45,6 +45,8 @@ type replayTemplates struct {
 	inVars  []obsVar // symbolic input leaves to write
 	plan    aliasPlan
 	err     string
+	// contents of the byte-slice parameters (by array variable name), filled in from the model
+	sliceBytes map[string][]byte
 }
 
 type obsVar struct {
@@ -55,7 +57,15 @@ type obsVar struct {
 	size   int64  // 1, 2, 4, 8
 	isBool bool
 	direct bool // the parameter / result is the scalar itself
+	// byte-slice parameter of symbolic length: name is the array variable, lenName / capName its length and capacity
+	isSlice bool
+	lenName string
+	capName string
+	// interface result (error): name is the Bool variable "the result is nil"
+	ifaceNil bool
 }
+
+var pathSuffixRe = regexp.MustCompile(`/path=\d+$`)
 
 var obligationNameRe = regexp.MustCompile(`^(.*)#ensures:(\d+)(?:\.\d+)?(?:/(.*?))?(?:/path=\d+)?$`)
 
@@ -71,7 +81,7 @@ func tryReplay(cfg runConfig, res *runResult, v *violation) *replayResult {
 			return sr
 		}
 	}
-	m := obligationNameRe.FindStringSubmatch(v.Obligation)
+	m := obligationNameRe.FindStringSubmatch(pathSuffixRe.ReplaceAllString(v.Obligation, ""))
 	if m == nil {
 		logf("replay is implemented for `ensures` obligations only")
 		return rr
@@ -124,7 +134,59 @@ func tryReplay(cfg runConfig, res *runResult, v *violation) *replayResult {
 	// inputs from the model (missing variables are unconstrained: 0)
 	sub := map[string]*Term{}
 	inputDesc := []string{}
+	var sliceIns []obsVar
 	for _, iv := range tp.inVars {
+		if iv.isSlice {
+			sliceIns = append(sliceIns, iv)
+		}
+	}
+	sliceBytes := map[string][]byte{}
+	if len(sliceIns) > 0 {
+		var arrs []string
+		for _, iv := range sliceIns {
+			arrs = append(arrs, iv.name)
+		}
+		m2 := explicitBytesModel(v.SMTFile, arrs)
+		if m2 == nil {
+			logf("the second solver run (byte positions made explicit) gave no model")
+			rr.Attempted = false
+			return rr
+		}
+		for k, val := range m2 {
+			v.Model[k] = val
+		}
+		for _, iv := range sliceIns {
+			ln, ok := new(big.Int).SetString(v.Model[iv.lenName], 10)
+			if !ok {
+				ln = big.NewInt(0)
+			}
+			if ln.Sign() < 0 || ln.Cmp(big.NewInt(sliceReplayMaxLen)) > 0 {
+				logf("the model's %s = %s is outside the replay's range 0..%d", iv.lenName, ln, sliceReplayMaxLen)
+				rr.Attempted = false
+				return rr
+			}
+			n := int(ln.Int64())
+			bs := make([]byte, n)
+			arr := &Term{Op: "var", Sort: SArr, Name: iv.name + "!beyond", Lo: big0, Hi: big.NewInt(255)}
+			for k := 0; k < n; k++ {
+				if b, ok := new(big.Int).SetString(v.Model[fmt.Sprintf("rp!%s!%d", iv.name, k)], 10); ok {
+					bs[k] = byte(new(big.Int).And(b, big.NewInt(255)).Int64())
+				}
+				arr = mkStore(arr, mkInt64(int64(k)), mkInt64(int64(bs[k])))
+			}
+			sliceBytes[iv.name] = bs
+			sub[iv.name] = arr
+			sub[iv.lenName] = mkInt64(int64(n))
+			if iv.capName != "" {
+				sub[iv.capName] = mkInt64(int64(n))
+			}
+			inputDesc = append(inputDesc, fmt.Sprintf("%s=%x (%d bytes)", strings.TrimSuffix(iv.name, "[]"), bs, n))
+		}
+	}
+	for _, iv := range tp.inVars {
+		if iv.isSlice {
+			continue
+		}
 		val := big.NewInt(0)
 		if s, ok := v.Model[iv.name]; ok {
 			if iv.isBool {
@@ -144,6 +206,7 @@ func tryReplay(cfg runConfig, res *runResult, v *violation) *replayResult {
 	}
 	sort.Strings(inputDesc)
 	rr.Input = strings.Join(inputDesc, " ")
+	tp.sliceBytes = sliceBytes
 	obs, panicMsg, err := runReplayHarness(cfg.repo, e, fn, tp, sub)
 	if err != nil {
 		logf("harness: %v", err)
@@ -159,7 +222,38 @@ func tryReplay(cfg runConfig, res *runResult, v *violation) *replayResult {
 		}
 		return rr
 	}
+	nilRes := map[int]bool{}
+	for k := range obs {
+		if strings.HasPrefix(k, "NIL!") {
+			if n, err := strconv.Atoi(strings.TrimPrefix(k, "NIL!")); err == nil {
+				nilRes[n] = true
+			}
+			delete(obs, k)
+		}
+	}
+	if len(nilRes) > 0 {
+		// the postcondition has to be evaluated with those results being nil pointers, not fresh objects
+		var tp2 *replayTemplates
+		func() {
+			defer func() {
+				if r := recover(); r != nil {
+					tp2 = &replayTemplates{err: fmt.Sprint(r)}
+				}
+			}()
+			e.templateNilResults = nilRes
+			defer func() { e.templateNilResults = nil }()
+			tp2 = e.buildTemplates(fn, c, variant)
+		}()
+		if tp2 == nil || tp2.err != "" || ei >= len(tp2.ens) {
+			logf("the real call returned nil results; the postcondition could not be re-evaluated for that outcome")
+			return rr
+		}
+		tp = tp2
+	}
 	var od []string
+	for k := range nilRes {
+		od = append(od, fmt.Sprintf("result%d=nil", k))
+	}
 	for k, val := range obs {
 		sub[k] = val
 		od = append(od, k+"="+val.Key())
@@ -275,11 +369,24 @@ func (e *Engine) contractTemplate(st *State, fn *ssa.Function, c *Contract, args
 			results[i] = e.symbolicScalar(fmt.Sprintf("obsres%d", i), rt)
 			tp.obsVars = append(tp.obsVars, obsVar{name: fmt.Sprintf("obsres%d", i), param: -1, result: i, size: sizes.Sizeof(rt), isBool: u.Info()&types.IsBoolean != 0, direct: true})
 		case *types.Pointer:
+			if e.templateNilResults[i] {
+				// the real call returned nil here (second template pass, after the execution)
+				results[i] = &PtrVal{null: true, typ: rt}
+				break
+			}
 			results[i] = e.symbolicResult(st, rt, fmt.Sprintf("obsres%d", i), true)
 			if err := collectLeaves(e, st, sizes, results[i], rt, fmt.Sprintf("obsres%d", i), -1, i, &tp.obsVars); err != "" {
 				tp.err = err
 				return
 			}
+		case *types.Interface:
+			iv, ok := e.symbolicResult(st, rt, fmt.Sprintf("obsres%d", i), true).(*IfaceVal)
+			if !ok || iv.null == nil || iv.null.Op != "var" {
+				tp.err = "interface result without a nil flag"
+				return
+			}
+			results[i] = iv
+			tp.obsVars = append(tp.obsVars, obsVar{name: iv.null.Name, param: -1, result: i, isBool: true, ifaceNil: true})
 		default:
 			tp.err = "result type " + rt.String() + " is not supported by the replay"
 			return
@@ -346,6 +453,28 @@ func collectLeaves(e *Engine, st *State, sizes types.Sizes, v Value, t types.Typ
 		})
 		return bad
 	}
+	if x, ok := v.(*SliceVal); ok {
+		if x.reg == nil {
+			return "" // nil slice in this variant
+		}
+		sl, isSl := underlying(t).(*types.Slice)
+		if !isSl || !x.reg.dyn {
+			return "slice parameter " + name + " is not a buffer of symbolic length"
+		}
+		if b, ok := underlying(sl.Elem()).(*types.Basic); !ok || b.Kind() != types.Uint8 {
+			return "slice parameter " + name + " is not a byte slice"
+		}
+		arr, ok := st.mem.cells[pathKey(x.reg.id, nil)].(*Term)
+		if !ok || arr.Op != "var" || x.length.Op != "var" || !x.off.IsConst() || x.off.Val.Sign() != 0 {
+			return "" // already written / a window: not an input leaf
+		}
+		ov := obsVar{name: arr.Name, param: param, result: result, isSlice: true, lenName: x.length.Name}
+		if x.capacity != nil && x.capacity.Op == "var" {
+			ov.capName = x.capacity.Name
+		}
+		*out = append(*out, ov)
+		return ""
+	}
 	return fmt.Sprintf("parameter %s of type %s is not supported by the replay", name, t)
 }
 
@@ -400,11 +529,29 @@ func runReplayHarness(repo string, e *Engine, fn *ssa.Function, tp *replayTempla
 			} else {
 				fmt.Fprintf(&body, "\t%s := new(%s)\n", an, types.TypeString(u.Elem(), qual))
 			}
+		case *types.Slice:
+			done := false
+			for _, iv := range tp.inVars {
+				if iv.isSlice && iv.param == i {
+					var bs []string
+					for _, b := range tp.sliceBytes[iv.name] {
+						bs = append(bs, fmt.Sprintf("0x%02x", b))
+					}
+					fmt.Fprintf(&body, "\t%s := []byte{%s}\n", an, strings.Join(bs, ", "))
+					done = true
+				}
+			}
+			if !done {
+				fmt.Fprintf(&body, "\tvar %s %s\n", an, types.TypeString(p.Type(), qual))
+			}
 		default:
 			fmt.Fprintf(&body, "\tvar %s %s\n", an, types.TypeString(p.Type(), qual))
 		}
 	}
 	for _, iv := range tp.inVars {
+		if iv.isSlice {
+			continue
+		}
 		val := sub[iv.name]
 		if val == nil {
 			continue
@@ -444,6 +591,10 @@ func runReplayHarness(repo string, e *Engine, fn *ssa.Function, tp *replayTempla
 	// read back
 	for _, ov := range tp.obsVars {
 		var src string
+		if ov.ifaceNil {
+			fmt.Fprintf(&body, "\tif r%d == nil {\n\t\tfmt.Fprintf(out, \"%s 1\\n\")\n\t} else {\n\t\tfmt.Fprintf(out, \"%s 0\\n\")\n\t}\n", ov.result, ov.name, ov.name)
+			continue
+		}
 		if ov.param >= 0 {
 			src = fmt.Sprintf("unsafe.Pointer(%s)", argNames[ov.param])
 		} else if ov.direct {
@@ -530,7 +681,11 @@ func TestVerifReplay(t *testing.T) {
 			continue
 		}
 		f := strings.SplitN(ln, " ", 2)
-		if len(f) != 2 || f[0] == "NIL" {
+		if len(f) == 2 && f[0] == "NIL" {
+			obs["NIL!"+strings.TrimSpace(f[1])] = mkBool(true) // pointer result f[1] is nil
+			continue
+		}
+		if len(f) != 2 {
 			continue
 		}
 		val, ok := new(big.Int).SetString(strings.TrimSpace(f[1]), 10)
